@@ -27,6 +27,8 @@ fn scenarios() -> Vec<Scn> {
         Scn { name: "S8-caught-panic", files: vec!["b.p=7", "l1.l=2", "t.n=p:b L:l1"], loads: vec!["load N t"], touched: vec!["t.n", "b.p", "l1.l"] },
         Scn { name: "S9-recdir", files: vec!["d.a.l=5", "d.sub.c.l=7"], loads: vec!["load RecL d"], touched: vec![] },
         Scn { name: "S10-owned", files: vec!["l0.l=1"], loads: vec!["owned L l0"], touched: vec!["l0.l"] },
+        Scn { name: "S12-two-owned-in-node", files: vec!["l0.l=1", "l1.l=2", "t.n=O:l0 O:l1"], loads: vec!["load N t"], touched: vec!["t.n", "l0.l", "l1.l"] },
+        Scn { name: "S13-raw-reads", files: vec!["r0.r=a", "r1.r=b", "l0.l=1", "t.n=F:r0 O:l0 F:r1"], loads: vec!["load N t"], touched: vec!["t.n", "r0.r", "l0.l", "r1.r"] },
         Scn { name: "S11-owned-in-node", files: vec!["l0.l=1", "l1.l=2", "t.n=O:l0 L:l1"], loads: vec!["load N t"], touched: vec!["t.n", "l0.l", "l1.l"] },
     ]
 }
@@ -168,6 +170,31 @@ pub fn run(args: &Args) -> SubResult {
                 ops.push("hr".into());
                 ops.extend(tail(s));
                 run(res, ops, format!("reload: read of {f} fails with {kind}"));
+            }
+            // the fault is transient and NOT followed by a new notification of the faulted entry:
+            // every other entry the assets read must still trigger them (later entries first)
+            for kind in ["Other", "NotFound"] {
+                let mut ops = loads.clone();
+                let g = good(f, 20 + i);
+                if !g.is_empty() {
+                    ops.push(g);
+                }
+                ops.push(format!("faultent F:{f} {kind}"));
+                ops.push(format!("ev F:{f}"));
+                ops.push("hr".into());
+                ops.push("nofault".into());
+                for (j, f2) in s.touched.iter().enumerate().rev() {
+                    if f2 == f {
+                        continue;
+                    }
+                    let g = good(f2, 60 + j);
+                    if !g.is_empty() {
+                        ops.push(g);
+                    }
+                    ops.push(format!("ev F:{f2}"));
+                    ops.push("hr".into());
+                }
+                run(res, ops, format!("reload: transient {kind} on {f}, then the other entries change"));
             }
             let mut bads = vec!["zz"];
             if f.ends_with(".p") {
